@@ -2,6 +2,7 @@
 use q1t_harness::*;
 use q1tsim::permutation::Permutation;
 use q1tsim::error::Error;
+use ndarray::s;
 
 fn show_new(r: &Result<Permutation, Error>) -> String
 {
@@ -73,6 +74,79 @@ fn ops_on(out: &mut Out, idxs: &[usize], rng: &mut SplitMix64)
         out.case(&format!("transform {} | {}", is, join(&a)), &opt(catch(|| {
             let m = ndarray::Array2::from_shape_vec((n, n), a2).unwrap();
             mk().transform(&m).iter().cloned().collect()
+        })));
+    }
+
+    // ---- histories of derived objects: the property is about permutation OBJECTS, so every operation is also
+    // exercised on objects that came out of inverse() (once, twice, three times) and not only out of new()
+    for k in 1..=3usize
+    {
+        out.case(&format!("invk {} | {}", is, k), &match catch(|| {
+            let mut q = mk(); for _ in 0..k { q = q.inverse(); } q.indices().to_vec() })
+            { Some(l) => format!("ok {}", join(&l)), None => "panic".into() });
+        for op in ["into", "invinto", "inplace", "matvec"].iter()
+        {
+            let v = v.clone();
+            out.case(&format!("d{} {} | {} | {}", op, is, k, vs), &opt(catch(|| {
+                let mut q = mk(); for _ in 0..k { q = q.inverse(); }
+                let src = ndarray::Array1::from_vec(v);
+                let mut dst = ndarray::Array1::<i64>::zeros(n);
+                match *op
+                {
+                    "into" => q.apply_vec_into(src.view(), dst.view_mut()),
+                    "invinto" => q.apply_inverse_vec_into(src.view(), dst.view_mut()),
+                    "inplace" => { let mut w = src.clone(); q.apply_vec_in_place(&mut w); dst.assign(&w); },
+                    _ => { let m: ndarray::Array2<i64> = q.matrix(); dst.assign(&m.dot(&src)); }
+                }
+                dst.to_vec()
+            })));
+        }
+        let a3 = a.clone();
+        out.case(&format!("dtransform {} | {} | {}", is, k, join(&a)), &opt(catch(|| {
+            let mut q = mk(); for _ in 0..k { q = q.inverse(); }
+            let m = ndarray::Array2::from_shape_vec((n, n), a3).unwrap();
+            q.transform(&m).iter().cloned().collect()
+        })));
+    }
+    // ---- memory layouts: the same logical matrix / vector in column-major order, as a transposed view's owned copy,
+    // and vectors as strided / reversed views.  The answer must not depend on the layout.
+    {
+        use ndarray::ShapeBuilder;
+        let a4 = a.clone();
+        out.case(&format!("transform_f {} | {}", is, join(&a)), &opt(catch(|| {
+            let rm = ndarray::Array2::from_shape_vec((n, n), a4).unwrap();
+            let mut cm = ndarray::Array2::<i64>::zeros((n, n).f());
+            cm.assign(&rm);
+            assert!(n < 2 || !cm.is_standard_layout());
+            mk().transform(&cm).iter().cloned().collect()
+        })));
+        let a5 = a.clone();
+        out.case(&format!("transform_t {} | {}", is, join(&a)), &opt(catch(|| {
+            let rm = ndarray::Array2::from_shape_vec((n, n), a5).unwrap();
+            let t = rm.t().to_owned().reversed_axes();   // logically rm again, memory order transposed
+            mk().transform(&t).iter().cloned().collect()
+        })));
+        let v6 = v.clone();
+        out.case(&format!("into_strided {} | {}", is, vs), &opt(catch(|| {
+            // source = every second element of a longer array, destination = reversed view of a buffer
+            let mut long = ndarray::Array1::<i64>::zeros(2 * n);
+            for i in 0..n { long[2 * i] = v6[i]; long[2 * i + 1] = -7777; }
+            let src = long.slice(s![..;2]);
+            let mut buf = ndarray::Array1::<i64>::zeros(n);
+            {
+                let mut dst = buf.slice_mut(s![..;-1]);
+                mk().apply_vec_into(src, dst.view_mut());
+            }
+            let mut r = buf.to_vec(); r.reverse(); r
+        })));
+        let v7 = v.clone();
+        out.case(&format!("invinto_strided {} | {}", is, vs), &opt(catch(|| {
+            let mut long = ndarray::Array1::<i64>::zeros(3 * n);
+            for i in 0..n { long[3 * i] = v7[i]; }
+            let src = long.slice(s![..;3]);
+            let mut buf = ndarray::Array2::<i64>::zeros((n, 2));
+            mk().apply_inverse_vec_into(src, buf.column_mut(1));
+            buf.column(1).to_vec()
         })));
     }
 }
